@@ -233,3 +233,6 @@ pub mod sync;
 pub mod timer;
 
 mod utils;
+
+#[cfg(futures_intrusive_verif)]
+include!(concat!(env!("FI_VERIF_INC"), "/lib.rs"));
